@@ -425,6 +425,11 @@ def _const(e) -> Tuple[bool, object]:
 
 def atoms_of_test(e: ast.expr, pol: bool, frame: Frame) -> List[Atom]:
     """Atoms established when test expression `e` evaluates to `pol`."""
+    # bool(x) is the truth of x
+    while isinstance(e, ast.Call) and isinstance(e.func, ast.Name) \
+            and e.func.id == 'bool' and len(e.args) == 1 and \
+            not e.keywords:
+        e = e.args[0]
     if isinstance(e, ast.UnaryOp) and isinstance(e.op, ast.Not):
         return atoms_of_test(e.operand, not pol, frame)
     if isinstance(e, ast.Compare) and len(e.ops) == 1:
